@@ -330,6 +330,21 @@ class Interp:
             return [(k, st)]
         return [(True, st.assume(v, True)), (False, st.assume(v, False))]
 
+    def split_maybe(self, pat, val, s_before, s_yes):
+        """For a 'maybe' match: returns (state where it matched, state where it did not)."""
+        new = [a for a, t in s_yes.pc[len(s_before.pc):] if t]
+        if len(new) == 1:
+            return s_yes, s_before.assume(new[0], False)
+        if len(new) == 0:
+            atom = self.top_atom(pat, val)
+            kn = s_before.known(atom)
+            if kn is True:
+                return s_yes, None
+            if kn is False:
+                return None, s_before
+            return s_yes.assume(atom, True), s_before.assume(atom, False)
+        return s_yes, s_before      # conjunction of several tests failed: nothing definite is known
+
     def ev_LetExpr(self, e, st):
         outs = []
         for o in self.ev(e['init'], st):
@@ -341,9 +356,11 @@ class Interp:
                 elif kind == 'no':
                     outs.append(Out('val', FALSE, s2))
                 else:
-                    atom = self.top_atom(e['pat'], o.val)
-                    outs.append(Out('val', TRUE, s2 if s2.known(atom) else s2.assume(atom, True)))
-                    outs.append(Out('val', FALSE, o.st.assume(atom, False)))
+                    sy, sn = self.split_maybe(e['pat'], o.val, o.st, s2)
+                    if sy is not None:
+                        outs.append(Out('val', TRUE, sy))
+                    if sn is not None:
+                        outs.append(Out('val', FALSE, sn))
         return outs
 
     def ev_If(self, e, st):
@@ -367,21 +384,25 @@ class Interp:
             if o.kind != 'val':
                 outs.append(o); continue
             pending = [o.st]
-            for ai, arm in enumerate(e['arms']):
+            arms = []
+            for arm in e['arms']:
+                if arm['pat'].get('k') == 'POr':
+                    arms.extend({'pat': alt, 'guard': arm.get('guard'), 'body': arm['body']} for alt in arm['pat']['pats'])
+                else:
+                    arms.append(arm)
+            for ai, arm in enumerate(arms):
                 nxt_pending = []
                 for s in pending:
                     for kind, s2 in self.match(arm['pat'], o.val, s):
                         if kind == 'no':
                             nxt_pending.append(s2); continue
-                        atom = self.top_atom(arm['pat'], o.val)
                         if kind == 'maybe':
-                            known = s.known(atom)
-                            if known is False:
-                                nxt_pending.append(s); continue
-                            if known is None:
-                                nxt_pending.append(s.assume(atom, False))
-                                if s2.known(atom) is None:
-                                    s2 = s2.assume(atom, True)
+                            sy, sn = self.split_maybe(arm['pat'], o.val, s, s2)
+                            if sn is not None:
+                                nxt_pending.append(sn)
+                            if sy is None:
+                                continue
+                            s2 = sy
                         if arm.get('guard') is not None:
                             for g in self.ev(arm['guard'], s2):
                                 if g.kind != 'val':
@@ -723,15 +744,14 @@ class Interp:
                 return [('yes' if v[1] == var else 'no', st)]
             return [('maybe', st)]
         if k == 'POr':
-            kinds = []
+            res = []
             for x in p['pats']:
                 for kind, s in self.match(x, v, st):
-                    kinds.append(kind)
-            if 'yes' in kinds:
-                return [('yes', st)]
-            if all(x == 'no' for x in kinds):
-                return [('no', st)]
-            return [('maybe', st)]
+                    if kind == 'yes':
+                        return [('yes', s)]
+                    if kind == 'maybe':
+                        res.append(('maybe', s))
+            return res or [('no', st)]
         if k == 'PRange':
             return [('maybe', st)]
         if k == 'PGuard':
@@ -822,6 +842,15 @@ def bin_term(op, a, b):
                 return ('lit', r())
         except Exception:
             pass
+    # (x + c1) - c2  ->  x + (c1 - c2);  x + 0 -> x
+    if op in ('Add', 'Sub') and b[0] == 'lit' and isinstance(b[1], int) and not isinstance(b[1], bool):
+        k = b[1] if op == 'Add' else -b[1]
+        base = a
+        if a[0] == 'bin' and a[1] == 'Add' and a[3][0] == 'lit' and isinstance(a[3][1], int):
+            base, k = a[2], k + a[3][1]
+        if k == 0:
+            return base
+        return ('bin', 'Add', base, ('lit', k))
     if op in ('Eq', 'Ne') and a == b and a[0] in ('ctor', 'lit', 'const'):
         return TRUE if op == 'Eq' else FALSE
     if op in ('Eq', 'Ne') and a[0] == 'ctor' and b[0] == 'ctor' and not a[2] and not b[2]:
@@ -925,15 +954,26 @@ def builtin_summary(I, cal, args, node, st):
         return [Out('val', atom if pos else ('not', atom), st)]
     if (is_opt or is_res) and name in ('and_then', 'map') and len(args) == 2 and args[1][0] in ('closure', 'fn'):
         v = args[0]
+        good = 'Some' if is_opt else 'Ok'
         if v[0] == 'ctor' and v[1] in ('None', 'Err'):
             return [Out('val', v, st)]
-        inner = v[2][0] if (v[0] == 'ctor' and v[1] in ('Some', 'Ok')) else ('variant', v, 'Some' if is_opt else 'Ok', 0)
-        outs = []
-        for o in I.apply(args[1], [inner], node, st):
-            if o.kind == 'val' and name == 'map':
-                outs.append(Out('val', ('ctor', 'Some' if is_opt else 'Ok', (o.val,)), o.st))
-            else:
-                outs.append(o)
+        branches = []
+        if v[0] == 'ctor' and v[1] in ('Some', 'Ok'):
+            branches.append((v[2][0], st))
+            outs = []
+        else:
+            kt = st.variant_test(v, good, ['Some', 'None'] if is_opt else ['Ok', 'Err'])
+            outs = []
+            if kt != 'no':
+                branches.append((('variant', v, good, 0), st if kt == 'yes' else st.assume(('is', v, good), True)))
+            if kt != 'yes':
+                outs.append(Out('val', v, st if kt == 'no' else st.assume(('is', v, good), False)))
+        for inner, s in branches:
+            for o in I.apply(args[1], [inner], node, s):
+                if o.kind == 'val' and name == 'map':
+                    outs.append(Out('val', ('ctor', good, (o.val,)), o.st))
+                else:
+                    outs.append(o)
         return outs
     if (cal.endswith('alloc::vec::Vec::<T, A>::pop') or cal.endswith('IntoIter<T, A> as core::iter::traits::iterator::Iterator>::next')
             or cal == 'core::iter::traits::iterator::Iterator::next') and args:
